@@ -197,7 +197,7 @@ def probeExpect (cfg : Cfg) (tls : Bool) (line : Bytes) (r : Reply) : List Strin
     else if b && (r.code == 504 || r.code == 502 || r.code == 500) then ["C12 " ++ what ++ " is advertised but refused as unsupported"]
     else []
   if has "SMTPUTF8" then off cfg.utf8 "SMTPUTF8"
-  else if has "REQUIRETLS" then off cfg.reqtls "REQUIRETLS"
+  else if has "REQUIRETLS" then off (cfg.reqtls && tls) "REQUIRETLS"   -- offered, and honoured, only under TLS (RFC 8689)
   else if has "BINARYMIME" then off cfg.binmime "BINARYMIME"
   else if has "RET=" || has "ENVID=" || has "NOTIFY=" || has "ORCPT=" then off cfg.dsn "DSN"
   else if has "RRVS=" then off cfg.rrvs "RRVS"
